@@ -507,6 +507,10 @@ YR_API int yr_scanner_scan_mem_blocks(
       scanner->matches_notebook = NULL;
     }
 
+    // The entry point is computed again for each scan, it must not survive
+    // from the previous one.
+    scanner->entry_point = YR_UNDEFINED;
+
     // Create the notebook that will hold the YR_MATCH structures representing
     // each match found. This notebook will also contain snippets of the
     // matching data (the "data" field in YR_MATCH points to the snippet
